@@ -6,6 +6,8 @@
 #include <stdlib.h>
 #include <string.h>
 #include <unistd.h>
+#include <sys/wait.h>
+#include <signal.h>
 #include <string>
 #include <map>
 #include <set>
@@ -173,6 +175,68 @@ static void do_asm(const Frame &q, Frame &a)
   a["img"] = img;
 }
 
+// For every mnemonic the decoder produces over the 65,536 leading patterns (zero tail): up to `per` representative
+// patterns (first ones and last one).  Runs in a forked child (a decoder may crash on some pattern).
+static void do_mnemonics(const Frame &q, Frame &a)
+{
+  const NvCpu *cpu = nv_cpu_by_name(get(q, "cpu").c_str());
+  if (cpu == NULL || cpu->disasm == NULL) { a["error"] = "unknown cpu"; return; }
+  int per = atoi(get(q, "per", "3").c_str());
+  int swap16 = atoi(get(q, "swap16", "0").c_str());      // the pattern is a little endian 16-bit word
+  int fds[2];
+  if (pipe(fds) != 0) { a["error"] = "pipe"; return; }
+  fflush(NULL);
+  pid_t pid = fork();
+  if (pid == 0)
+  {
+    close(fds[0]);
+    alarm(120);
+    Memory mem;
+    mem.endian = cpu->endian;
+    std::map<std::string, std::vector<int> > reps;
+    std::map<std::string, int> last;
+    for (int p = 0; p < 65536; p++)
+    {
+      // word oriented CPUs: the pattern is the first instruction word in the CPU's byte order
+      uint8_t b0 = (p >> 8) & 0xff, b1 = p & 0xff;
+      for (int i = 0; i < 16; i++) { mem.write8(256 + i, 0); }
+      if (swap16) { mem.write8(256, b1); mem.write8(257, b0); }
+      else { mem.write8(256, b0); mem.write8(257, b1); }
+      std::string t;
+      int n = nv_disasm(cpu, &mem, 256, t);
+      if (n <= 0 || t.empty()) { continue; }
+      size_t sp = t.find_first_of(" \t");
+      std::string mn = t.substr(0, sp == std::string::npos ? t.size() : sp);
+      std::vector<int> &v = reps[mn];
+      if ((int)v.size() < per) { v.push_back(p); }
+      last[mn] = p;
+    }
+    std::string out;
+    for (std::map<std::string, std::vector<int> >::iterator it = reps.begin(); it != reps.end(); ++it)
+    {
+      out += it->first + "\t";
+      for (size_t i = 0; i < it->second.size(); i++) { out += itos(it->second[i]) + ","; }
+      out += itos(last[it->first]) + "\n";
+    }
+    size_t off = 0;
+    while (off < out.size()) { ssize_t k = write(fds[1], out.data() + off, out.size() - off); if (k <= 0) { break; } off += k; }
+    _exit(0);
+  }
+  close(fds[1]);
+  std::string text;
+  char buf[65536];
+  while (true)
+  {
+    ssize_t k = read(fds[0], buf, sizeof(buf));
+    if (k <= 0) { break; }
+    text.append(buf, k);
+  }
+  close(fds[0]);
+  int status = 0;
+  waitpid(pid, &status, 0);
+  a["mnemonics"] = text;
+}
+
 static void do_dis(const Frame &q, Frame &a)
 {
   const NvCpu *cpu = nv_cpu_by_name(get(q, "cpu").c_str());
@@ -209,7 +273,13 @@ static void fill(Memory &mem, uint32_t addr, int p, int tail, bool complement_ta
   for (int i = 2; i < 20; i++)
   {
     uint8_t t;
-    if (tail == 0) { t = 0; }
+    if (tail >= 1000)
+    {
+      // deep tails: byte 2 or byte 3 takes every value (bytes that select the instruction behind a prefix)
+      int k = 2 + (tail - 1000) / 256;
+      t = (i == k) ? (uint8_t)((tail - 1000) & 0xff) : ((k == 3 && i == 2) ? 0x05 : 0);
+    }
+    else if (tail == 0) { t = 0; }
     else if (tail == 1) { t = 0xff; }
     else if (tail == 2) { t = (uint8_t)((p * 31 + i * 97 + (p >> 5)) ^ (i << 3)); }
     else
@@ -462,8 +532,49 @@ static bool asm_one(const NvCpu *cpu, uint32_t addr, const std::string &text, st
   return !bytes.empty() && bytes.size() == r.image.size();
 }
 
-static void c07scan_child(const NvCpu *cpu, int lo, int hi, int step, int tails, int stails, uint32_t addr, int fd)
+// mnemonic + operand shape: numbers replaced by N (used to list one accepted rendering per instruction form)
+static std::string shape_of_text(const std::string &t)
 {
+  std::string o;
+  size_t i = 0;
+  while (i < t.size())
+  {
+    char c = t[i];
+    bool prev_alnum = i > 0 && (isalnum((unsigned char)t[i - 1]) || t[i - 1] == '_' || t[i - 1] == '.');
+    if (c == '$' && !prev_alnum && i + 1 < t.size() && isxdigit((unsigned char)t[i + 1]))
+    {
+      // $hex notation
+      size_t j = i + 1;
+      while (j < t.size() && isxdigit((unsigned char)t[j])) { j++; }
+      o += 'N';
+      i = j;
+      continue;
+    }
+    if (c == '-' && i + 1 < t.size() && (isdigit((unsigned char)t[i + 1]) || t[i + 1] == '$') &&
+        (i == 0 || strchr(" ,=(#[+:", t[i - 1]) != NULL))
+    {
+      i++;            // the sign of a number is part of the number
+      continue;
+    }
+    if (isdigit((unsigned char)c) && !prev_alnum)
+    {
+      size_t j = i;
+      if (c == '0' && j + 1 < t.size() && (t[j + 1] == 'x' || t[j + 1] == 'X')) { j += 2; while (j < t.size() && isxdigit((unsigned char)t[j])) { j++; } }
+      else { while (j < t.size() && isxdigit((unsigned char)t[j])) { j++; } }
+      o += 'N';
+      i = j;
+      continue;
+    }
+    o += c;
+    i++;
+  }
+  return o;
+}
+
+static void c07scan_child(const NvCpu *cpu, int lo, int hi, int step, int tails, int stails, uint32_t addr, int fd, int emit, int deep)
+{
+  std::set<std::string> emitted;
+  long deep_patterns = 0;
   Memory mem;
   mem.endian = cpu->endian;
   std::string out;
@@ -476,9 +587,32 @@ static void c07scan_child(const NvCpu *cpu, int lo, int hi, int step, int tails,
     out += d;
     if (write(fd, out.data(), out.size()) < 0) { _exit(3); }
     out.clear();
-    alarm(20);
-    for (int tail = 3 - tails; tail < 3 + stails; tail++)
+    alarm(60);
+    std::vector<int> tl;
+    for (int tail = 3 - tails; tail < 3 + stails; tail++) { tl.push_back(tail); }
+    if (deep)
     {
+      // does byte 2 / byte 3 select the instruction (prefix opcodes, post bytes)?  If the rendering's shape changes
+      // with it, every value of that byte is explored for this leading pattern.
+      static const int probes[] = { 0x00, 0x5a, 0xa5, 0xff, 0x3c, 0xc6, 0x81, 0x7e };
+      for (int k = 2; k <= 3; k++)
+      {
+        std::set<std::string> shapes;
+        for (size_t pi = 0; pi < sizeof(probes) / sizeof(probes[0]); pi++)
+        {
+          fill(mem, addr, p, 1000 + (k - 2) * 256 + probes[pi], false, 0);
+          std::string tt;
+          int nn = nv_disasm(cpu, &mem, addr, tt);
+          shapes.insert(itos(nn) + ":" + shape_of_text(tt));
+        }
+        if (shapes.size() < 2) { continue; }
+        for (int v = 0; v < 256; v++) { tl.push_back(1000 + (k - 2) * 256 + v); }
+        deep_patterns++;
+      }
+    }
+    for (size_t ti = 0; ti < tl.size(); ti++)
+    {
+      int tail = tl[ti];
       fill(mem, addr, p, tail, false, 0);
       std::string t;
       int n = nv_disasm(cpu, &mem, addr, t);
@@ -500,6 +634,7 @@ static void c07scan_child(const NvCpu *cpu, int lo, int hi, int step, int tails,
       }
       if (!ok) { continue; }
       accepted++;
+      if (emit && emitted.insert(shape_of_text(used)).second) { out += std::string("text\t") + used + "\n"; }
       // second decode: the re-assembled bytes followed by the original tail
       for (size_t i = 0; i < b2.size() && i < 20; i++) { mem.write8(addr + i, (uint8_t)b2[i]); }
       std::string t2;
@@ -575,6 +710,9 @@ static void do_c07scan(const Frame &q, Frame &a)
   int tails = atoi(get(q, "tails", "1").c_str());
   int stails = atoi(get(q, "stails", "0").c_str());
   uint32_t addr = strtoul(get(q, "addr", "256").c_str(), NULL, 0);
+  int emit = atoi(get(q, "emit", "0").c_str());
+  int deep = atoi(get(q, "deep", "0").c_str());
+  std::string texts;
   std::string anomalies;
   std::set<std::string> closed_all;
   long st[5] = { 0, 0, 0, 0, 0 };
@@ -590,7 +728,7 @@ static void do_c07scan(const Frame &q, Frame &a)
     if (pid == 0)
     {
       close(fds[0]);
-      c07scan_child(cpu, cur, hi, step, tails, stails, addr, fds[1]);
+      c07scan_child(cpu, cur, hi, step, tails, stails, addr, fds[1], emit, deep);
     }
     close(fds[1]);
     std::string text;
@@ -616,6 +754,7 @@ static void do_c07scan(const Frame &q, Frame &a)
       if (line.empty()) { continue; }
       if (line[0] == '@') { last = atoi(line.c_str() + 1); continue; }
       if (line == "#done") { done = true; continue; }
+      if (line.compare(0, 5, "text\t") == 0) { texts += line.substr(5) + "\n"; continue; }
       if (line.compare(0, 7, "#closed") == 0)
       {
         size_t q0 = 7;
@@ -647,6 +786,7 @@ static void do_c07scan(const Frame &q, Frame &a)
     cur = last + step;
   }
   a["anomalies"] = anomalies;
+  a["texts"] = texts;
   a["evals"] = itos(st[0]);
   a["unknown"] = itos(st[1]);
   a["accepted"] = itos(st[2]);
@@ -748,6 +888,7 @@ int main(int argc, char *argv[])
     std::string cmd = get(q, "cmd");
     if (cmd == "asm") { do_asm(q, a); }
     else if (cmd == "dis") { do_dis(q, a); }
+    else if (cmd == "mnemonics") { do_mnemonics(q, a); }
     else if (cmd == "cpus") { do_cpus(a); }
     else if (cmd == "c08scan") { do_c08scan(q, a); }
     else if (cmd == "range") { do_range(q, a); }
